@@ -3,14 +3,15 @@
 # and compares the result with /root/.vp/BASELINE.json (all stable_pass tests must pass).
 set -u
 export CARGO_NET_OFFLINE=true
-cd /repo || exit 2
+REPO_DIR="${BASE_REPO:-/repo}"
+cd "$REPO_DIR" || exit 2
 rm -f target/nextest/vb/junit.xml
 cargo nextest run --workspace --no-fail-fast --tool-config-file vb:/verif/tools/nextest.toml --profile vb --test-threads 8 --offline >/tmp/verif_baseline.log 2>&1
 python3 - <<'PY'
 import json, sys, xml.etree.ElementTree as ET
 base = json.load(open('/root/.vp/BASELINE.json'))
 try:
-    root = ET.parse('/repo/target/nextest/vb/junit.xml').getroot()
+    root = ET.parse(__import__("os").environ.get("BASE_REPO","/repo") + '/target/nextest/vb/junit.xml').getroot()
 except Exception as e:
     print("baseline: no junit output:", e); sys.exit(2)
 res = {}
@@ -40,7 +41,7 @@ for t in missing:
             cmd = ['cargo', 'test', '--offline', '--test', parts[1], parts[2], '--', '--exact']
         else:
             cmd = ['cargo', 'test', '--offline', '--lib', '::'.join(parts[1:]), '--', '--exact']
-        r = subprocess.run(cmd, cwd='/repo', capture_output=True, text=True)
+        r = subprocess.run(cmd, cwd=__import__("os").environ.get("BASE_REPO","/repo"), capture_output=True, text=True)
         if r.returncode == 0 and '1 passed' in r.stdout: ok = True; break
     print(f"  re-run alone: {t}: {'passed' if ok else 'FAILED'}")
     if ok: res[t] = True
